@@ -245,7 +245,11 @@ theorem tm_compileStmt (env : CEnv) :
         · cases h
           exact ⟨Nat.le_refl _, TmpsIn_of_eq_nil (by simp only [tmpsOfEffect, tmpsOfPures, tmpsOfPure, List.append_nil]) _ _⟩
         · cases h; exact ⟨Nat.le_refl _, TmpsIn_of_eq_nil (by simp only [tmpsOfEffect]) _ _⟩
-  | .exprstmt _, st, eff, st', hf, _ => by simp [HybFreeS] at hf
+  | .exprstmt e, st, eff, st', _, h => by
+      simp only [compileStmt] at h
+      obtain ⟨ce, _, h⟩ := bind_ok h
+      cases h
+      exact ⟨Nat.le_refl _, TmpsIn_of_eq_nil (by simp only [tmpsOfEffect]) _ _⟩
   | .ret _, st, eff, st', hf, _ => by simp [HybFreeS] at hf
 theorem tm_compileStmts (env : CEnv) :
     (ss : List CStmt) → (st : TSt) → {es : List ILEffect} → {st' : TSt} → HybFreeSs ss = true →
@@ -264,8 +268,12 @@ theorem tm_compileStmts (env : CEnv) :
       have h1 := tm_compileStmt env s st hf.1 hr
       have h2 := tm_compileStmts env ss st1 hf.2 hr2
       refine ⟨Nat.le_trans h1.1 h2.1, ?_⟩
-      rw [tmpsOfEffects_cons]
-      exact (h1.2.mono (Nat.le_refl _) h2.1).append (h2.2.mono h1.1 (Nat.le_refl _))
+      show TmpsIn (tmpsOfEffects (consEff s e1 es2)) st.hyb st2.hyb
+      cases hb : isBare s
+      · rw [consEff_eff hb, tmpsOfEffects_cons]
+        exact (h1.2.mono (Nat.le_refl _) h2.1).append (h2.2.mono h1.1 (Nat.le_refl _))
+      · rw [consEff_bare hb]
+        exact h2.2.mono h1.1 (Nat.le_refl _)
 end
 
 end HEqv
